@@ -17,6 +17,9 @@ def call_builtin(I, name, args, kwargs, fr, node):
     ctx = I.ctx
     if name == 'len':
         v = I.unopt(args[0], 'len argument')
+        if type(v).__name__ == 'VRow':
+            h = ctx.heap[v.oid]
+            return VInt(z3.Select(h.fields['rowlen'], v.i))
         if isinstance(v, VStr):
             return VInt(z3.Length(v.t))
         if isinstance(v, VTuple):
@@ -84,11 +87,19 @@ def call_builtin(I, name, args, kwargs, fr, node):
     if name == 'range':
         ints = [I.as_int(a, 'range') for a in args]
         lo, hi = (z3.IntVal(0), ints[0]) if len(ints) == 1 else (ints[0], ints[1])
+        step = 1
         if len(ints) == 3:
-            raise Unsupported('range step')
-        if ctx.decide(hi < lo, 'range-empty'):
-            hi = lo
-        return ctx.alloc(HObj('range', 'range', {'lo': VInt(lo), 'hi': VInt(hi)}, closed=True))
+            st = z3.simplify(ints[2])
+            if not (z3.is_int_value(st) and st.as_long() in (1, -1)):
+                raise Unsupported('range step')
+            step = st.as_long()
+        if step == 1:
+            if ctx.decide(hi < lo, 'range-empty'):
+                hi = lo
+        else:
+            if ctx.decide(hi > lo, 'range-empty'):
+                hi = lo
+        return ctx.alloc(HObj('range', 'range', {'lo': VInt(lo), 'hi': VInt(hi), 'step': step}, closed=True))
     if name == 'enumerate':
         return ctx.alloc(HObj('enumerate', 'enumerate', {'inner': args[0]}, closed=True))
     if name == 'iter':
@@ -394,6 +405,17 @@ def str_method(I, self, meth, args, kwargs, fr, node):
             return VBool(z3.Or(*parts))
         return VBool((z3.PrefixOf if meth == 'startswith' else z3.SuffixOf)(p.t, s.t))
     if meth == 'join':
+        a0 = args[0]
+        if type(a0).__name__ == 'VRow':
+            z = z3.simplify(s.t)
+            if z3.is_string_value(z) and z.as_string() == '':
+                return I.reg.heap_hook('grid').row_text(I, a0)
+            raise Unsupported('join of a row with a separator')
+        if isinstance(a0, VObj) and ctx.heap[a0.oid].kind == 'rowtexts':
+            g = ctx.heap[a0.oid].fields['grid']
+            from .grid import CellArr, IntArr
+            F = z3.Function('GridText', z3.StringSort(), CellArr, IntArr, z3.IntSort(), z3.StringSort())
+            return VStr(F(s.t, g['cell'], g['rowlen'], g['len'].t), 's')
         items = I.concrete_items(args[0])
         if not items:
             return VStr('', s.kind)
